@@ -9,7 +9,7 @@
    sets in harness area simprops. *)
 From Coq Require Import ZArith List Bool.
 From Model Require Import Bits Word Instr Sim.
-From Proofs Require Import SimAccess SimObs.
+From Proofs Require Import SimAccess SimObs IrqProofs SimStepObs.
 Import ListNotations.
 Open Scope Z_scope.
 
@@ -70,6 +70,94 @@ Theorem C28_st_marks_written : forall e sr off s s' u,
 Proof. exact exec_obs_st. Qed.
 Print Assumptions C28_st_marks_written.
 
+Theorem C28_str_marks_written : forall e sr br off s s' u,
+  exec e (SSTR sr br off) s = (s', inl u) ->
+  let ea := wrap16 (w_data (rget (s_regs s) br) + off) in
+  (IO_START <=? ea) = false ->
+  s_obs s' = let o := obs_update (s_obs s) ea OBS_WRITTEN in
+             if word_eqb (mget (s_mem s) ea) (rget (s_regs s) sr) then o else obs_update o ea OBS_MODIFIED.
+Proof. exact exec_obs_str. Qed.
+Print Assumptions C28_str_marks_written.
+(* indirect accesses: READ at the pointer cell, then the mark(s) at the address it holds *)
+Theorem C28_ldi_marks : forall e dr off s s' u,
+  exec e (SLDI dr off) s = (s', inl u) ->
+  exists s1 w, read_mem e (wrap16 (s_pc s + off)) (default_ctx s) s = (s1, inl w) /\
+    s_obs s' = obs_update (obs_update (s_obs s) (wrap16 (s_pc s + off)) OBS_READ) (w_data w) OBS_READ.
+Proof. exact exec_obs_ldi. Qed.
+Print Assumptions C28_ldi_marks.
+Theorem C28_sti_marks : forall e sr off s s' u,
+  exec e (SSTI sr off) s = (s', inl u) ->
+  exists s1 w, read_mem e (wrap16 (s_pc s + off)) (default_ctx s) s = (s1, inl w) /\
+    ((IO_START <=? w_data w) = false ->
+     s_obs s' = let o := obs_update (obs_update (s_obs s) (wrap16 (s_pc s + off)) OBS_READ) (w_data w) OBS_WRITTEN in
+                if word_eqb (mget (s_mem s1) (w_data w)) (rget (s_regs s1) sr) then o else obs_update o (w_data w) OBS_MODIFIED).
+Proof. exact exec_obs_sti. Qed.
+Print Assumptions C28_sti_marks.
+
+(* whole steps.  A completed step that takes no interrupt is the fetch — one tracked read of the
+   PC into the emptied observer — followed by the instruction the fetched word decodes to; the
+   observer after the step is the observer after that instruction *)
+Theorem C28_step_is_fetch_then_instruction : forall e s s' u,
+  (forall v p, ~ takes_irq e s v p) -> step_inner e (upd_obs s []) = (s', inl u) ->
+  step_in e s = (s', OOk) /\
+  exists s1 w i s3,
+    read_mem e (s_pc s) (default_ctx s) (after_poll e (upd_obs s [])) = (s1, inl w) /\
+    decode (w_data w) = DOk i /\
+    s_obs (after_fetch s1) = [(s_pc s, OBS_READ)] /\
+    exec e i (after_fetch s1) = (s3, inl tt) /\
+    s_obs s' = s_obs s3.
+Proof. intros e s s' u NT E. split; [exact (step_in_of_inner e s s' u E)|exact (step_inner_decompose e s s' u NT E)]. Qed.
+Print Assumptions C28_step_is_fetch_then_instruction.
+(* ... hence, in terms of the state before the step.  [Completed e s s' u s1 w i]: machine [s] takes no
+   interrupt, its step completes in [s'], the fetch read word [w] (leaving [s1]) and [w] decodes to [i] *)
+Theorem C28_completed_def : forall e s s' u s1 w i,
+  Completed e s s' u s1 w i <->
+  (forall v p, ~ takes_irq e s v p) /\
+  step_inner e (upd_obs s []) = (s', inl u) /\
+  read_mem e (s_pc s) (default_ctx s) (after_poll e (upd_obs s [])) = (s1, inl w) /\
+  decode (w_data w) = DOk i.
+Proof. intros. reflexivity. Qed.
+Print Assumptions C28_completed_def.
+Theorem C28_step_no_operand : forall e s s' u s1 w i, Completed e s s' u s1 w i ->
+  no_mem_operand i = true -> s_obs s' = [(s_pc s, OBS_READ)].
+Proof. exact step_obs_no_operand. Qed.
+Print Assumptions C28_step_no_operand.
+Theorem C28_step_ld : forall e s s' u s1 w dr off, Completed e s s' u s1 w (SLD dr off) ->
+  s_obs s' = obs_update [(s_pc s, OBS_READ)] (wrap16 (wrap16 (s_pc s + 1) + off)) OBS_READ.
+Proof. exact step_obs_ld. Qed.
+Print Assumptions C28_step_ld.
+Theorem C28_step_ldr : forall e s s' u s1 w dr br off, Completed e s s' u s1 w (SLDR dr br off) ->
+  s_obs s' = obs_update [(s_pc s, OBS_READ)] (wrap16 (w_data (rget (s_regs s) br) + off)) OBS_READ.
+Proof. exact step_obs_ldr. Qed.
+Print Assumptions C28_step_ldr.
+Theorem C28_step_st : forall e s s' u s1 w sr off, Completed e s s' u s1 w (SST sr off) ->
+  (IO_START <=? s_pc s) = false ->
+  let ea := wrap16 (wrap16 (s_pc s + 1) + off) in
+  (IO_START <=? ea) = false ->
+  s_obs s' = let o := obs_update [(s_pc s, OBS_READ)] ea OBS_WRITTEN in
+             if word_eqb (mget (s_mem s) ea) (rget (s_regs s) sr) then o else obs_update o ea OBS_MODIFIED.
+Proof. exact step_obs_st. Qed.
+Print Assumptions C28_step_st.
+Theorem C28_step_str : forall e s s' u s1 w sr br off, Completed e s s' u s1 w (SSTR sr br off) ->
+  (IO_START <=? s_pc s) = false ->
+  let ea := wrap16 (w_data (rget (s_regs s) br) + off) in
+  (IO_START <=? ea) = false ->
+  s_obs s' = let o := obs_update [(s_pc s, OBS_READ)] ea OBS_WRITTEN in
+             if word_eqb (mget (s_mem s) ea) (rget (s_regs s) sr) then o else obs_update o ea OBS_MODIFIED.
+Proof. exact step_obs_str. Qed.
+Print Assumptions C28_step_str.
+(* non-vacuity of the step theorems: a user-mode machine that executes `ST R0, #1` at x3000 with R0 = 5
+   over a zero word takes no interrupt, completes the step, and ends with exactly READ at x3000 and
+   WRITTEN+MODIFIED at x3002 *)
+Theorem C28_step_example :
+  (forall v p, ~ takes_irq ex_env ex_st_state v p) /\
+  (exists s', step_inner ex_env (upd_obs ex_st_state []) = (s', inl tt) /\
+              step_in ex_env ex_st_state = (s', OOk) /\
+              (exists s1 w, Completed ex_env ex_st_state s' tt s1 w (SST 0 1)) /\
+              s_obs s' = [(12288, OBS_READ); (12290, Z.lor OBS_WRITTEN OBS_MODIFIED)] /\
+              mget (s_mem s') 12290 = new_init 5).
+Proof. exact ex_st_step. Qed.
+Print Assumptions C28_step_example.
 Theorem C28_cleared_every_step : forall e s, step_in e s = step_in e (upd_obs s []).
 Proof. reflexivity. Qed.
 Print Assumptions C28_cleared_every_step.
